@@ -101,6 +101,14 @@ fn check_negative(kind: &str, ph: bool, sig: &Sig, m: &[u8], pk: &Pk, must_rejec
 }
 
 pub fn replay(case: &Value) -> Option<String> {
+    if case["kind"] == "wrong-length" {
+        let (sg, pkv, mv) = (unhx(&case["sig"]), unhx(&case["pk"]), unhx(&case["msg"]));
+        let r = guarded(AssertUnwindSafe(move || {
+            let s: SignedMessage<Vec<u8>, Vec<u8>> = SignedMessage::from_parts(sg, mv);
+            s.verify(&pkv).is_ok()
+        }));
+        return if r == Ok(true) { Some("accepts-wrong-length".into()) } else { None };
+    }
     let sig: Sig = unhx(&case["sig"]).try_into().unwrap();
     let pk: Pk = unhx(&case["pk"]).try_into().unwrap();
     let m = unhx(&case["msg"]);
@@ -236,6 +244,33 @@ pub fn run() -> i32 {
     });
     ctx.absorb("positive", st);
 
+    // a large family of honest keys (counter seeds) and their libsodium-made signatures: every
+    // byte position of public key and commitment R takes every value, so an encoding-dependent
+    // refusal of honest inputs (a slipped canonicity or small-order test) shows up
+    {
+        let nkeys: u32 = ctx.tier.pick(1u32 << 14, 1u32 << 18);
+        let chunks: Vec<u32> = (0..nkeys / 256).collect();
+        let st = par_units(&chunks, |&c, st| {
+            for i in 0..256u32 {
+                let n = c * 256 + i;
+                let mut sd = [0u8; 32];
+                sd[..4].copy_from_slice(&n.to_le_bytes());
+                sd[4..12].copy_from_slice(&seed.to_le_bytes());
+                let (pk, sk) = sodium::sign_seed_keypair(&sd);
+                let m = n.to_be_bytes();
+                let sig = sodium::sign_detached(&m, &sk);
+                let r = dry_verify_pure(&sig, &m, &pk);
+                let ok = r == Ok(true);
+                st.eval(&("honest-family", n), true, if ok { "honest-signature-accepted" } else { "honest-signature-refused" });
+                if !ok {
+                    st.fail(Fail { check: "C06.ed25519".into(), signature: "C06/verify/rejects-what-sodium-accepts/honest-family".into(), what: format!("libsodium signature of an honest key (seed {}, pk {}) is not accepted: {:?}", hx(&sd), hx(&pk), r), case: json!({"kind": "verify", "what": "honest-family", "ph": false, "sig": hx(&sig), "msg": hx(&m), "pk": hx(&pk), "must_reject": false}) });
+                }
+            }
+        });
+        ctx.note("honest_key_family", json!({"keys": nkeys}));
+        ctx.absorb("honest-family", st);
+    }
+
     // negative
     let base_seeds = [sds[2], sds[3], sds[5]];
     let base_lens = [0usize, 1, 32, 65];
@@ -295,6 +330,78 @@ pub fn run() -> i32 {
             let mut s2 = sig;
             s2[32..].copy_from_slice(&v);
             go(format!("S-raw({})", name), &s2, &m, &pk, true, st);
+        }
+        // mixed-order points: A' = A + T and R' = R + T for every torsion point T. The pure
+        // signature (R = rB, S = r + k a) over A' satisfies the strict equation iff k T = 0,
+        // the cofactored one always; with R' the strict equation never holds for T != 0. Both
+        // implementations must give the same verdict on each of them.
+        if !ph {
+            let h = sodium::sha512(&base_seeds[si]);
+            let mut a: B32 = h[..32].try_into().unwrap();
+            a[0] &= 248;
+            a[31] &= 127;
+            a[31] |= 64;
+            let mut a64 = [0u8; 64];
+            a64[..32].copy_from_slice(&a);
+            let a_red = sodium::sc_reduce64(&a64);
+            let torsion: Vec<B32> = small_order_encodings().into_iter().filter(|t| sodium::ed_add(t, t).is_some()).collect();
+            for (ti, t) in torsion.iter().enumerate() {
+                let Some(a_mixed) = sodium::ed_add(&pk, t) else { continue };
+                for j in 0..24u8 {
+                    let mut mm = m.clone();
+                    mm.push(j);
+                    let mut pre = h[32..].to_vec();
+                    pre.extend_from_slice(&mm);
+                    let r = sodium::sc_reduce64(&sodium::sha512(&pre));
+                    let Some(rp) = sodium::ed_base_noclamp(&r) else { continue };
+                    // (a) torsion in the public key
+                    let mut hin = rp.to_vec();
+                    hin.extend_from_slice(&a_mixed);
+                    hin.extend_from_slice(&mm);
+                    let k = sodium::sc_reduce64(&sodium::sha512(&hin));
+                    let s_ = sodium::sc_add(&r, &sodium::sc_mul(&k, &a_red));
+                    let mut sg = [0u8; 64];
+                    sg[..32].copy_from_slice(&rp);
+                    sg[32..].copy_from_slice(&s_);
+                    go(format!("mixed-order-A(T#{},msg+{})", ti, j), &sg, &mm, &a_mixed, false, st);
+                    // (b) torsion in R
+                    if let Some(r_mixed) = sodium::ed_add(&rp, t) {
+                        let mut hin = r_mixed.to_vec();
+                        hin.extend_from_slice(&pk);
+                        hin.extend_from_slice(&mm);
+                        let k = sodium::sc_reduce64(&sodium::sha512(&hin));
+                        let s_ = sodium::sc_add(&r, &sodium::sc_mul(&k, &a_red));
+                        let mut sg = [0u8; 64];
+                        sg[..32].copy_from_slice(&r_mixed);
+                        sg[32..].copy_from_slice(&s_);
+                        go(format!("mixed-order-R(T#{},msg+{})", ti, j), &sg, &mm, &pk, false, st);
+                    }
+                }
+            }
+        }
+        // signatures / public keys handed over in run-time-sized containers of the wrong length:
+        // never accepted (refusal by Err or by panic is not fixed by the statement)
+        if !ph {
+            let mut cases: Vec<(String, Vec<u8>, Vec<u8>)> = vec![];
+            for n in [0usize, 1, 31, 32, 33, 63] {
+                cases.push((format!("signature-prefix({})", n), sig[..n].to_vec(), pk.to_vec()));
+            }
+            for n in [0usize, 1, 31] {
+                cases.push((format!("public-key-prefix({})", n), sig.to_vec(), pk[..n].to_vec()));
+            }
+            for (name, sg, pkv) in cases {
+                let mv = m.clone();
+                let case = json!({"kind": "wrong-length", "what": name, "sig": hx(&sg), "pk": hx(&pkv), "msg": hx(&m)});
+                let r = guarded(AssertUnwindSafe(move || {
+                    let s: SignedMessage<Vec<u8>, Vec<u8>> = SignedMessage::from_parts(sg, mv);
+                    s.verify(&pkv).is_ok()
+                }));
+                let accepted = r == Ok(true);
+                st.eval(&(si, li, &name), true, if accepted { "wrong-length-accepted" } else { "wrong-length-refused" });
+                if accepted {
+                    st.fail(Fail { check: "C06.ed25519".into(), signature: "C06/verify/accepts-wrong-length".into(), what: format!("SignedMessage<Vec, Vec>::verify accepted {} (msg len {})", name, m.len()), case });
+                }
+            }
         }
         // small-order R x A
         let so = small_order_encodings();
